@@ -232,6 +232,7 @@ func init() {
 	Properties["C09"] = &PropertySpec{
 		Modules: st,
 		Rules: []Rule{
+			R80(),
 			R68(),
 			Only(R59(), `^b/`),
 			Only(R58(), `^c/`, `^e/`),
@@ -248,6 +249,7 @@ func init() {
 	Properties["C10"] = &PropertySpec{
 		Modules: st,
 		Rules: []Rule{
+			R80(),
 			Only(R41(), `read-back-outside-the-lock`),
 			Only(R56(), `^a/`),
 			Only(R22(), `Metageneration`, `metagen`, `read-only`, `through-Add`),
